@@ -62,3 +62,8 @@ EDITS += [
     {"id": "table-keeps-sorted-position", "expect": "fire", "rule": "C13.O4", "file": F,
      "old": "        ((t - t.min(), H, index) for index, (t, H) in enumerate(series_list)),", "new": "        ((t - t.min(), H, 0) for index, (t, H) in enumerate(series_list)),"},
 ]
+
+# round 8 (hardening that is not)
+EDITS += [
+    {'id': 'r8-classification-discarded-under-curves', 'expect': 'fire', 'rule': 'C13.O2', 'file': 'spowtd/classify.py', 'old': '    check_for_uniform_time_steps(epoch)\n    (time_step_h,) = cursor.execute(', 'new': '    cursor.execute("DELETE FROM zeta_interval")\n    check_for_uniform_time_steps(epoch)\n    (time_step_h,) = cursor.execute('},
+]
